@@ -62,6 +62,18 @@ none of which may be a name that was never assigned (M.reread-mvstr, a sub-count
 with the string payloads of the *prime* steps.  No other demand: a defective string that the class normalises into
 records is fine, and nothing says which strings must be accepted.
 
+MAPPING OBJECTS AS THE SOURCE (case kind ``via``, M.via): the value reaches a paragraph of ``Deb822`` or one of the seven
+subclasses (under a name that is an ordinary text field there) through ``p.update(other)``, ``p.update(other, **kw)``,
+``cls(other)``, ``p |= other`` or ``p | other``, where ``other`` is a mapping OBJECT holding the string: a bare
+``Deb822Dict`` (never validates), a ``Deb822`` built without validation (``_parsed=`` backing mapping; the storing half of
+item assignment alone), a ``Dsc`` / ``Changes`` / ``BuildInfo`` / ``Sources`` / ``Release`` / ``PdiffIndex`` holding it under
+a name that is multivalued THERE, an ``OrderedDict`` / ``MappingProxyType`` / ``UserDict`` / ``ChainMap`` (around a dict
+or a ``Deb822Dict``), an object with ``keys()`` and ``__getitem__`` only, an iterable of pairs.  Whatever the route and
+whatever the TYPE of the source: the operation raises (a value with a stated defect; the paragraph it was applied to is
+unchanged - M.via.unchanged / K), or it does not - then every value the paragraph holds must be free of the three stated
+defects (M.via.must-reject), no name may have appeared that was never assigned, and the dump is re-read through the class
+and through plain ``Deb822`` exactly as in the subclass layer (M.reread-via, a sub-count of M.reread).
+
 Auxiliary K-monitor: contract on the exceptional exit of
 ``Deb822.__setitem__`` (every binding): the mapping is unchanged.
 
@@ -83,7 +95,7 @@ LEVEL = 'exploration'
 TOKENS = ['a', ':', '#', ' ', '\t', '\r', '\n', '-', '.', 'B: x']
 ENUM_MAXLEN = {'quick': 5, 'thorough': 7}
 BLOCK_SUFFIX = 3                     # one enum case = one prefix x all 10^3 suffixes
-RANDOM_TOTAL = {'quick': 22000, 'thorough': 900000}
+RANDOM_TOTAL = {'quick': 21000, 'thorough': 900000}
 
 RULE = ('Values: (1) ENUMERATED - every concatenation of <= 5 (quick) / <= 7 (thorough) tokens from '
         "['a', ':', '#', ' ', TAB, CR, LF, '-', '.', 'B: x'], each assigned to the middle field of a 3-field "
@@ -182,7 +194,31 @@ RULE = ('Values: (1) ENUMERATED - every concatenation of <= 5 (quick) / <= 7 (th
         'LF-only forms and constructor forms as in (5) (blank continuation: 5 more pairs; CR: 1..3; half of the rest: 1; '
         'a --replay: all); when dump() raises, dump(fd) into a StringIO is tried and whatever it completes is re-read as '
         'str / bytes.  The string payloads of the prime steps of (5) are judged the same way.  NON-TRIVIAL: the '
-        'string contains a line boundary; distinct = distinct (class, name, string).')
+        'string contains a line boundary; distinct = distinct (class, name, string).  '
+        '(7) MAPPING OBJECTS AS THE SOURCE (case kind via), run after (6): the string is carried to a paragraph of Deb822 / '
+        'Dsc / Changes / BuildInfo / Sources / Packages / Release / PdiffIndex - under a name that is ordinary text THERE: a usual '
+        'field of the class, a name multivalued in another class (1 in 3), a new name; four layouts: middle / new-last / first / '
+        'sole - by one of five ROUTES: p.update(other), p.update(other, **kw) (the string in other, or in kw while other holds '
+        'ordinary values / nothing; p.update(**kw) alone rides along with the dict source), cls(other) (other holds the whole '
+        'paragraph), p |= other, p | other; and eleven SOURCE TYPES: dict (control), a bare Deb822Dict (built from pairs / '
+        'from a dict), a Deb822 or an object of the target class made without validation - values pulled from a _parsed= backing '
+        'Deb822Dict; values stored with Deb822Dict.__setitem__, the storing half of item assignment -, an object of a class in '
+        'which the carried name IS multivalued (Dsc / Changes / BuildInfo / Sources / Release / PdiffIndex, string item-assigned '
+        'there), OrderedDict, MappingProxyType, UserDict, ChainMap (one map / the string in the first / in the second map) - the '
+        'last three around a dict or around a Deb822Dict -, an object offering keys() and __getitem__ only, an iterable of '
+        'pairs (iterator, generator, list of tuples, tuple of lists); the last two not with cls(other), which reads them as a '
+        'sequence of lines.  The source holds the one pair only (2 in 5) or ordinary pairs before / after / around it.  '
+        '(7a) every (route, source type) - 53 - x 8 classes x the 28 fixed hostile / accepted / whitespace-only-continuation '
+        'values of (5) x 2 layouts (quick: 2 hostile + 1 accepted + 1 whitespace-only value per combination, operators: the 2 '
+        'hostile ones); (7b) TOKENS: every concatenation of <= 3 (quick) / <= 5 (thorough, longest length every 3rd) tokens of '
+        'the alphabet of (1), class rotating, (route, source type) by a CRC of the string with update weighing 3, update with '
+        'keywords and the constructor 2, the operators 1; (7c) SEEDED: 55% random values as in (2), 20% whitespace-only-'
+        'continuation values, 25% fixed ones, same weights.  Outcomes: raised -> counted (the operators are not offered by '
+        'the present tree: TypeError, nothing demanded beyond an unchanged paragraph), paragraph unchanged; no exception -> held '
+        'values judged by the model, names, re-read: str through cls.iter_paragraphs always, bytes through the class or str '
+        'through Deb822 alternating, + LF-only and constructor forms as in (5) (blank continuation: 5 more pairs; CR: 1..3; '
+        'half of the rest: 1; a --replay: all).  NON-TRIVIAL: the string contains a line boundary; distinct = distinct '
+        '(route, source type, class, string).')
 ASSUMPTIONS = [
     'vp.models.deb822value (30 lines) states the three defects of the property: value ends in LF; a line after the '
     'first is empty; a line after the first does not start with space/tab.  Lines are split on LF, CR LF, CR; a '
@@ -281,6 +317,34 @@ ASSUMPTIONS = [
     'that every text outcome was re-read at least through the class and through Deb822; (ix) when dump() raises, the '
     'other way of writing the paragraph out - dump(fd, text_mode=True) into a StringIO - is tried once: if it completes, the '
     'text it wrote is judged the same way (str / bytes forms only), if it raises too nothing is demanded.',
+    'MAPPING OBJECTS AS THE SOURCE.  update(), the constructor from a mapping and (where a class offers them) |= and | are '
+    'taken to be ways of "assigning a value to a field of a paragraph": each carried pair is an assignment, and whether it is '
+    'accepted must not depend on the type of the object that carries it.  Guards, all on the under-demanding side: (i) '
+    'domain - every name involved is an ordinary text field of the TARGET class per the reference table and per the '
+    "class's declaration at start (otherwise skipped and counted); a name carried by a Dsc / Changes / ... source must be "
+    'multivalued in THAT class per both; source objects are built without going through the validator of the target and '
+    'are never judged themselves (a source the library cannot build is skipped and counted: via:outcome:build-raised); (ii) '
+    'an exception of any type is a refusal; ValueError is demanded only on the in-place routes and only for the source types '
+    'the library certainly supports - dict, OrderedDict, its own Deb822Dict / Deb822 / subclass objects; for MappingProxyType, '
+    'UserDict, ChainMap, keys()-only objects and iterables of pairs the type is not judged, and on cls(other) any exception '
+    'counts (types recorded in coverage.ctor_reject_types; the present tree: TypeError out of the constructor\'s own error '
+    'handler); (iii) p |= other and p | other: the present tree offers neither (TypeError) - when the class dictionaries '
+    'along the MRO hold no __or__ / __ior__, a TypeError is counted as operator-not-supported and only "the paragraph is '
+    'unchanged" is demanded; a result that is not a Deb822 (ChainMap.__ror__ answers p | ChainMap(...) with a ChainMap) is not '
+    'a paragraph and not judged - only the left operand, if it changed; a tree that offers the operators is judged like '
+    'update (in place) / like the constructor (new object; the left operand is judged too if it changed); (iv) after a '
+    'refusal the paragraph must be unchanged (list() and dump()) when the source carried ONE pair; when several pairs '
+    'travelled together update() is not promised to be atomic (the present tree assigns the pairs in front of the refused '
+    'one), so only this is demanded: the field the refused value was meant for is as it was, no name appeared that was '
+    'not carried, and what the paragraph now holds is judged like an accepted assignment (model, re-read in the str / bytes '
+    'forms); (v) no exception: EVERY str value the paragraph then holds must be free of the stated defects per the model '
+    '(so a library that silently drops or repairs a defective value is not accused; counted as via:no-exception-but-value-'
+    'not-stored-as-given), names held must have been assigned, and the re-read compares paragraph count and names only; the '
+    'default parser setting is consulted only when no held value has a blank continuation line; (vi) no must-accept demand: '
+    'a refusal of a value without stated defect is only counted; (vii) Deb822(_parsed=...) and Deb822Dict.__setitem__ are used '
+    'only to MAKE source objects that hold an unvalidated string - what such objects do themselves is not judged; (viii) '
+    'floors are on attempts per (route, source type, class), on refusals and on stored multi-line values - how the operators '
+    'end is the library\'s choice; conclusive() checks that every attempt was classified and every stored value re-read.',
 ]
 ANCHORS = ['debian.deb822:Deb822.validate_input',
            'debian.deb822:Deb822.__setitem__',
@@ -2162,6 +2226,456 @@ def run_sub(ctx, case, collect=None):
 
 
 # ---------------------------------------------------------------------------
+# MAPPING-PROTOCOL ROUTES WITH MAPPING OBJECTS AS THE SOURCE (case kind 'via'): the value reaches the paragraph through
+# p.update(other) / p.update(other, **kw) / cls(other) / p |= other / p | other, where `other` is a mapping OBJECT - a
+# library mapping that never validated the string it holds (a bare Deb822Dict, a Deb822 built without validation, a
+# Dsc / Changes / Release ... holding it under a name that is multivalued THERE), a standard-library wrapper
+# (OrderedDict, MappingProxyType, UserDict, ChainMap), an object with keys() and __getitem__ only, an iterator of
+# pairs.  Whatever the route and whatever the TYPE of the source: a value with a stated defect is refused, or - if the
+# library accepts - every value the paragraph holds is free of the stated defects and the dump re-reads to ONE
+# paragraph with the names the paragraph holds.
+
+VIA_ROUTES = ['update', 'update-kw', 'ctor', 'ior', 'or']
+VIA_SOURCES = ['dict', 'Deb822Dict', 'Deb822-parsed', 'Deb822-raw', 'mvobj', 'OrderedDict', 'MappingProxyType', 'UserDict',
+               'ChainMap', 'keys-getitem', 'pairs-iter']
+VIA_NO_ITEMS = ('keys-getitem', 'pairs-iter')     # no .items(): the constructors read such an object as a sequence of LINES
+# the library certainly supports these source types (its own mappings, dict and its subclass): there a refusal must be
+# ValueError; for the other source types the exception type is the library's choice
+VIA_TYPE_JUDGED = ('dict', 'Deb822Dict', 'Deb822-parsed', 'Deb822-raw', 'mvobj', 'OrderedDict')
+VIA_COMBOS = [(r_, s_) for r_ in VIA_ROUTES for s_ in VIA_SOURCES if not (r_ == 'ctor' and s_ in VIA_NO_ITEMS)]
+# the seeded and the token workload pick a combination from this list: the operators (which the present tree does not
+# offer on paragraphs) weigh 1, update 3, update with keywords 2, the constructor 2
+VIA_COMBOS_W = [c_ for c_ in VIA_COMBOS for _ in range({'update': 3, 'update-kw': 2, 'ctor': 2}.get(c_[0], 1))]
+VIA_RANDOM_TOTAL = {'quick': 1800, 'thorough': 120000}
+VIA_ENUM_MAXLEN = {'quick': 3, 'thorough': 5}
+VIA_ENUM_THIN = {'quick': 1, 'thorough': 3}          # the longest length: every N-th string
+
+# floors of this class (same rule: ~50% of the minimum measured over seeds 0-3 quick / seed 0 thorough; the enumeration and
+# case counters are deterministic and must be complete): a run that never drives a (route, source type, class)
+# combination, never gets a refusal or a stored multi-line value out of these routes, or never re-reads one, is
+# INCONCLUSIVE.  No floors on via:outcome:operator-not-supported / result-not-a-paragraph / via:refused:* /
+# via:partly-applied-before-refusal (the library's choice).
+_VIA_FLOORS = {
+    'quick': {'monitors': {'M.via': 4255, 'M.reread-via': 7400, 'M.via.must-reject': 1200, 'M.via.unchanged': 850},
+              'counters': {'via:case': 4255, 'via:case:tokens': 1111, 'via:enum-len:3': 1000, 'via:enum-len:2': 100,
+                           'via:route:update': 670, 'via:route:update-kw': 490, 'via:route:ctor': 400, 'via:route:ior': 245,
+                           'via:route:or': 260, 'via:hot-in:kw': 240, 'via:source-keys:one': 600,
+                           'via:source-keys:several': 1450, 'via:value:stated-defect': 790,
+                           'via:value:no-stated-defect': 1300, 'via:outcome:refused': 530, 'via:outcome:accepted': 1000,
+                           'via:value-stored-multiline': 760, 'via:accepted:update': 450, 'via:accepted:update-kw': 310,
+                           'via:accepted:ctor': 255, 'via:ws-only-continuation-followed': 330,
+                           'via:reread-form:str': 3000, 'via:reread-form:bytes': 1250, 'via:reread-form:stringio': 470,
+                           'via:reread-form:bytesio': 470, 'via:reread-form:lines-nl': 430, 'via:reread-form:lines-bare': 470,
+                           'via:reread-form:lines-nl-seq': 130, 'via:reread-form:lines-bare-seq': 120,
+                           'via:reread-form:textfile': 490, 'via:reread-form:binfile': 485},
+              'per-class': {'via:cls:%s': 250, 'via:accepted:cls:%s': 120, 'via:reread:%s:iter': 550,
+                            'via:reread:%s:ctor': 165},
+              'per-src': {'via:src:%s': 150, 'via:accepted:src:%s': 65}, 'per-mvobj-class': 12,
+              'per-combo': {'update': 4, 'update-kw': 4, 'ctor': 4, 'ior': 2, 'or': 2}},
+    'thorough': None,
+}
+for _tier, _f in _VIA_FLOORS.items():
+    if not _f:
+        continue
+    FLOORS[_tier]['monitors'].update(_f['monitors'])
+    FLOORS[_tier]['counters'].update(_f['counters'])
+    for _pat, _n in _f['per-class'].items():
+        FLOORS[_tier]['counters'].update((_pat % _c, _n) for _c in _SUB_CLASSES)
+    for _pat, _n in _f['per-src'].items():
+        FLOORS[_tier]['counters'].update((_pat % _s, _n) for _s in VIA_SOURCES)
+    FLOORS[_tier]['counters'].update(('via:mvobj:' + _c, _f['per-mvobj-class']) for _c in _SUB_PRIME_CLASSES)
+    FLOORS[_tier]['counters'].update(('via:combo:%s:%s:%s' % (_r, _s, _c), _f['per-combo'][_r])
+                                     for _r, _s in VIA_COMBOS for _c in _SUB_CLASSES)
+
+
+class KeysAndGetitem(object):
+    """The smallest thing update() takes as a mapping: keys() and __getitem__, nothing else (no items / iteration / len)."""
+
+    def __init__(self, pairs):
+        self._order = [k for k, _ in pairs]
+        self._d = dict(pairs)
+
+    def keys(self):
+        return list(self._order)
+
+    def __getitem__(self, key):
+        return self._d[key]
+
+
+def via_values():
+    return HOSTILE_X + GOOD_X + WS_VALUES
+
+
+def via_xnames(cls):
+    """[(class A, lower-case name X)]: X is multivalued in A and an ordinary text field in cls (reference table)."""
+    return [(a, x) for a in _SUB_PRIME_CLASSES for x in sorted(MV_MODEL[a]) if x not in MV_MODEL[cls]]
+
+
+def mk_via(cls, route, src, v, k):
+    """One judged case: the string v travels to a paragraph of class cls through `route`, carried by a source object of
+    kind `src`.  k selects layout, target name, what else the source holds and the flavour of the source object."""
+    pool = [n for n in CLASS_FIELDS[cls] if n.lower() not in MV_MODEL[cls] and n.lower() not in DISPLAY]
+    f0, f1, f2 = pool[0], pool[1], pool[2]
+    srccls = None
+    xs = via_xnames(cls)
+    if src == 'mvobj' or k % 3 == 0:
+        srccls, x = xs[(k // 3) % len(xs)]
+        tname, target = spell(x, k), spell(x, k + 1)
+        if src != 'mvobj':
+            srccls = None
+    elif k % 5 == 0:
+        tname = target = 'X-New-Field'
+    else:
+        tname, target = f1, (f1, f1.lower(), f1.upper(), f1)[k % 4]
+    lay = (k // 2) % 4
+    if lay == 0:
+        fields = [[f0, 'p1'], [tname, 'old'], [f2, 'z9']]             # middle, replace
+    elif lay == 1:
+        fields = [[f0, 'p1'], [f2, 'z9\n z10']]                       # new, last
+    elif lay == 2:
+        fields = [[tname, 'old'], [f0, 'p1\n .\n p2']]                # first, replace
+    else:
+        fields = []                                                   # sole, new
+    shape = ((k // 8) % 5) - 1                 # -1, 0: the source holds the one pair only (2 in 5)
+    pre = [['X-Pre', 'b1']] if shape in (1, 3) else []
+    post = ([[f0, 'p2']] if shape == 2 else [['X-Post', 'after\n more']]) if shape in (2, 3) else []
+    hot = [target, v]
+    case = {'kind': 'via', 'cls': cls, 'route': route, 'src': src, 'target': target, 'v': v, 'variant': k // 32}
+    if srccls:
+        case['srccls'] = srccls
+    if route == 'ctor':
+        # the source holds the whole paragraph
+        items, seen = [], False
+        for n, val in fields:
+            if n.lower() == target.lower():
+                items.append(hot)
+                seen = True
+            else:
+                items.append([n, val])
+        if not seen:
+            items.append(hot)
+        if post and post[0][0].lower() not in [n.lower() for n, _ in items]:
+            items = items + post
+        case.update(fields=[], items=pre + items, kw=[])
+    elif route == 'update-kw' and (k // 16) % 2:
+        # the hostile string travels in the keyword arguments, the source object holds ordinary values (or nothing)
+        case.update(fields=fields, items=pre + post if src != 'mvobj' else pre + [[target, 'ok']],
+                    kw=[hot] if src != 'mvobj' else [['X-Kw', v]])
+        if src == 'mvobj':
+            case['target'] = 'X-Kw'
+    else:
+        case.update(fields=fields, items=pre + [hot] + post, kw=[['X-Kw', 'k1']] if route == 'update-kw' else [])
+    return case
+
+
+def via_enum_cases(quick=False):
+    """Every (route, source type) x every target class x the fixed hostile / accepted / whitespace-only-continuation
+    values x source shapes (quick: four values per combination, rotating)."""
+    vals = via_values()
+    i = 0
+    for ci, cls in enumerate(SUBCLASSES):
+        for ri, (route, src) in enumerate(VIA_COMBOS):
+            for vi, v in enumerate(vals):
+                for rep in (0, 1):
+                    i += 1
+                    if quick:
+                        # two hostile, one accepted, one whitespace-only-continuation value per (combination, class)
+                        j = ci + ri
+                        pick = (j % len(HOSTILE_X), (j + 3) % len(HOSTILE_X), len(HOSTILE_X) + j % len(GOOD_X),
+                                len(HOSTILE_X) + len(GOOD_X) + j % len(WS_VALUES))
+                        if rep or vi not in (pick if route not in ('ior', 'or') else pick[:2]):
+                            continue
+                    yield mk_via(cls, route, src, v, i * 7 + rep * 13)
+
+
+def rand_via_case(r, k):
+    cls = r.choice(SUBCLASSES)
+    route, src = r.choice(VIA_COMBOS_W)
+    q = r.random()
+    if q < 0.55:
+        v = rand_value(r)
+    elif q < 0.75:
+        v = ws_value(r)
+    else:
+        v = r.choice(via_values())
+    case = mk_via(cls, route, src, v, r.randrange(1 << 20))
+    if r.random() < 0.3:
+        for f in case['fields']:
+            if f[1] != 'old':
+                val = r.choice(NEIGHBOUR_VALUES)
+                f[1] = val % k if '%d' in val else val
+    return case
+
+
+def run_via_penum(ctx, case):
+    """One block of the token enumeration through the mapping-object routes: one prefix, all suffixes."""
+    k = case['k']
+    prefix = ''.join(TOKENS[i] for i in case['prefix'])
+    slen = k - len(case['prefix'])
+    n = sum(case['prefix']) * 7 + k
+    first = True
+    for suffix in itertools.product(TOKENS, repeat=slen):
+        s = prefix + ''.join(suffix)
+        n += 1
+        if k == VIA_ENUM_MAXLEN[ctx.tier] and n % VIA_ENUM_THIN[ctx.tier]:
+            continue
+        if not first:
+            ctx.evaluations += 1
+        first = False
+        ctx.count('via:enum-len:%d' % k)
+        h = zlib.crc32(s.encode('utf-8'))
+        route, src = VIA_COMBOS_W[(h >> 3) % len(VIA_COMBOS_W)]
+        run_via(ctx, mk_via(SUBCLASSES[n % len(SUBCLASSES)], route, src, s, h >> 9), wl='tokens')
+
+
+def via_source(case, cls):
+    """The source object (fresh per call).  Nothing here goes through the validator of the TARGET class."""
+    import collections
+    import types
+    from debian.deb822 import Deb822, Deb822Dict
+    src, var = case['src'], case.get('variant', 0)
+    pairs = [(n, val) for n, val in case['items']]
+    inner = (lambda p: Deb822Dict(list(p))) if var & 1 else dict
+    if src == 'dict':
+        return dict(pairs)
+    if src == 'Deb822Dict':
+        return Deb822Dict(pairs if var & 1 else dict(pairs))
+    if src == 'Deb822-parsed':
+        # a paragraph whose values are pulled from a backing mapping on demand (the apt_pkg-backed kind): never validated
+        return (cls if var & 1 else Deb822)(_parsed=Deb822Dict(pairs))
+    if src == 'Deb822-raw':
+        d = (cls if var & 1 else Deb822)()
+        for n, val in pairs:
+            Deb822Dict.__setitem__(d, n, val)        # the storing half of item assignment
+        return d
+    if src == 'mvobj':
+        d = sub_cls(case['srccls'])()
+        for n, val in pairs:
+            d[n] = val       # under the names multivalued THERE nothing is validated; ordinary values under ordinary names
+        return d
+    if src == 'OrderedDict':
+        return collections.OrderedDict(pairs)
+    if src == 'MappingProxyType':
+        return types.MappingProxyType(inner(pairs))
+    if src == 'UserDict':
+        return collections.UserDict(inner(pairs))
+    if src == 'ChainMap':
+        hot = [p for p in pairs if p[0] == case['target']]
+        rest = [p for p in pairs if p[0] != case['target']]
+        if not hot or not rest or var % 3 == 0:
+            return collections.ChainMap(inner(pairs))
+        maps = [inner(hot), inner(rest)]
+        return collections.ChainMap(*(maps if var % 3 == 1 else maps[::-1]))
+    if src == 'keys-getitem':
+        return KeysAndGetitem(pairs)
+    if src == 'pairs-iter':
+        return (iter(pairs), (p for p in pairs), list(pairs), tuple([n, val] for n, val in pairs))[var % 4]
+    raise ValueError('unknown source kind %r' % src)
+
+
+def via_judge_object(ctx, o, case, assigned, what, depth, sel):
+    """No exception: every value the paragraph holds must be free of the stated defects, no name may have appeared that
+    was never assigned, and the dump must re-read as ONE paragraph with the names the paragraph holds."""
+    clsname, target, v = case['cls'], case['target'], case['v']
+    keys = list(o)
+    held = []
+    for key in keys:
+        val = o[key]
+        if not isinstance(val, str):
+            ctx.count('via:non-str-value-held')
+            continue
+        held.append(val)
+        dfx = model.defects(val)
+        if dfx:
+            ctx.violation('defective-value-accepted/%s/via-mapping' % dfx[0],
+                          '%s: no exception, and the paragraph now holds %s = %r, which has the stated defect(s) %s; '
+                          'fields %r' % (what, key, val, '+'.join(dfx), keys), case)
+            return
+    ctx.mon('M.must-reject')
+    ctx.mon('M.via.must-reject')
+    extra = [key for key in keys if key.lower() not in assigned]
+    if extra:
+        ctx.violation('accepted-value-adds-field/at-assignment/via-mapping',
+                      '%s: the paragraph holds the names %r; %r were never assigned (assigned: %r)'
+                      % (what, keys, extra, assigned), case)
+        return
+    if target.lower() in [key.lower() for key in keys] and o[target] == v:
+        ctx.count('via:value-stored')
+        ctx.count('via:value-stored:%s:%s' % (case['route'], case['src']))
+        if model.has_boundary(v):
+            ctx.count('via:value-stored-multiline')
+    else:
+        ctx.count('via:no-exception-but-value-not-stored-as-given')
+    check_reread(ctx, o, v, case, what=what, depth=depth, sel=sel, values=held, suffix='/via-mapping', sub=clsname,
+                 followed=bool(keys) and keys[-1].lower() != target.lower(), fam='via')
+
+
+def run_via(ctx, case, wl=None):
+    import operator
+    from ..core import MonitorViolation
+    from .. import contracts
+    snapshot_decl()
+    clsname, route, src = case['cls'], case['route'], case['src']
+    target, v = case['target'], case['v']
+    fields = [(n, val) for n, val in case.get('fields') or []]
+    items = [(n, val) for n, val in case.get('items') or []]
+    kw = [(n, val) for n, val in case.get('kw') or []]
+    cls = sub_cls(clsname)
+    ctx.count('via:case')
+    if wl:
+        ctx.count('via:case:' + wl)
+    # domain guard: every name is an ordinary text field of the TARGET class (reference table and the class's own
+    # declaration at start); for an 'mvobj' source the carried name must be multivalued in the SOURCE class
+    names = [n for n, _ in fields + items + kw]
+    if not all(ordinary(clsname, n) for n in names):
+        ctx.count('via:outcome:skipped')
+        ctx.count('via:skipped:name-declared-multivalued-by-target-class')
+        return
+    if src == 'mvobj' and not any(n.lower() in DECL[case['srccls']] and n.lower() in MV_MODEL[case['srccls']]
+                                  for n, _ in items):
+        ctx.count('via:outcome:skipped')
+        ctx.count('via:skipped:name-not-multivalued-in-source-class')
+        return
+    ctx.mon('M.via')
+    ctx.count('via:route:' + route)
+    ctx.count('via:src:' + src)
+    ctx.count('via:cls:' + clsname)
+    ctx.count('via:combo:%s:%s:%s' % (route, src, clsname))
+    if src == 'mvobj':
+        ctx.count('via:mvobj:' + case['srccls'])
+    nkeys = len(items) + len(kw)
+    ctx.count('via:source-keys:' + ('one' if nkeys == 1 else 'several'))
+    ctx.count('via:hot-in:' + ('kw' if any(n == target for n, _ in kw) else 'source-object'))
+    carried = [val for _, val in items + kw]
+    dfx_all = [x for val in carried for x in model.defects(val)]
+    dfx = model.defects(v)
+    ctx.count('via:value:' + ('stated-defect' if dfx else 'no-stated-defect'))
+    if model.has_boundary(v):
+        ctx.nontrivial(case={'via': '%s(%s) -> %s' % (route, src, clsname), 'v': v},
+                       key=hashlib.sha1(('via\0%s\0%s\0%s\0%s' % (route, src, clsname, v)).encode('utf-8')).hexdigest())
+    depth = step_depth(ctx, {'v': v})
+    sel = (zlib.crc32(v.encode('utf-8')) >> 3) + case.get('variant', 0)
+    try:
+        source = via_source(case, cls)
+        if route == 'update-kw' and not items and src == 'dict' and case.get('variant', 0) & 1:
+            source = None            # p.update(**kw) on its own
+        d = None
+        if route != 'ctor':
+            d = build_obj(cls, fields, 'assign')
+            before = (list(d), d.dump())
+    except MonitorViolation:
+        raise
+    except Exception as e:           # ordinary values under ordinary names / a source the library cannot build
+        ctx.count('via:outcome:build-raised')
+        ctx.count('via:build-raised:' + type(e).__name__)
+        return
+    where = ('%s through %s, source %s%s holding %r%s' % (
+        clsname, {'update': 'p.update(other)', 'update-kw': 'p.update(other, **kw)', 'ctor': 'cls(other)',
+                  'ior': 'p |= other', 'or': 'p | other'}[route], src,
+        ' (%s)' % case['srccls'] if src == 'mvobj' else '', items, ', kw %r' % kw if kw else ''))
+    if route != 'ctor':
+        where += '; paragraph before: %r' % (fields,)
+    assigned = [n.lower() for n, _ in fields + items + kw]
+    supported = True
+    if route in ('ior', 'or'):
+        # looked up in the class dictionaries along the MRO (getattr on a class would find type.__or__, the X | Y of
+        # typing, through the metaclass)
+        offers = lambda name: any(vars(k_).get(name) is not None for k_ in type(d).__mro__)
+        supported = offers('__or__') or (route == 'ior' and offers('__ior__'))
+    res = None
+    try:
+        K_ACTIVE[0] = True
+        if route == 'update':
+            d.update(source)
+            res = d
+        elif route == 'update-kw':
+            if source is None:
+                d.update(**dict(kw))
+            else:
+                d.update(source, **dict(kw))
+            res = d
+        elif route == 'ctor':
+            res = cls(source)
+        elif route == 'ior':
+            res = operator.ior(d, source)
+        else:
+            res = operator.or_(d, source)
+    except MonitorViolation as e:
+        contracts.PENDING[:] = []
+        ctx.violation(e.key + '/via-mapping', e.msg, case)
+        ctx.count('via:outcome:violation')
+        return
+    except Exception as e:
+        K_ACTIVE[0] = False
+        t = type(e).__name__
+        if route in ('ior', 'or') and not supported and isinstance(e, TypeError):
+            ctx.count('via:outcome:operator-not-supported')     # the class does not offer the operator: nothing happened
+        else:
+            ctx.count('via:outcome:refused')
+            ctx.count('via:refused:%s:%s' % (route, t))
+            if not dfx_all:
+                ctx.extra['rejected_without_stated_defect'] += 1
+                ctx.count('via:refused-without-stated-defect')
+            if route == 'ctor':
+                ctx.extra['ctor_reject_types'][t] = ctx.extra['ctor_reject_types'].get(t, 0) + 1
+            elif not isinstance(e, ValueError) and src in VIA_TYPE_JUDGED:
+                ctx.violation('rejection-not-ValueError/via-mapping',
+                              '%s: raised %s (%s), not ValueError' % (where, t, e), case)
+        if d is None:
+            return
+        # the paragraph the operation was applied to
+        ctx.mon('M.unchanged')
+        ctx.mon('M.via.unchanged')
+        try:
+            after = (list(d), d.dump())
+        except Exception as e2:
+            after = ('<list/dump raised %s: %s>' % (type(e2).__name__, e2),)
+        if after == before:
+            return
+        if nkeys == 1 or len(after) == 1 or route in ('ior', 'or') and not supported:
+            ctx.violation('rejected-assignment-changed-paragraph/via-mapping',
+                          '%s: refused (%s) but list/dump changed: %r -> %r' % (where, t, before, after), case)
+            return
+        # several keys travelled together and some were assigned before the refusal (update() is not promised to be
+        # atomic): the field the refused value was meant for must be as it was, nothing but the carried names may have
+        # appeared, and what the paragraph now holds is judged like an accepted assignment
+        ctx.count('via:partly-applied-before-refusal')
+        tl = target.lower()
+        was = dict((n.lower(), val) for n, val in fields)
+        now_has = tl in [key.lower() for key in d]
+        if dfx and (now_has != (tl in was) or (now_has and d[target] != was[tl])):
+            ctx.violation('rejected-assignment-changed-paragraph/via-mapping',
+                          '%s: refused (%s) but the field %r the refused value was meant for changed: %r -> %r'
+                          % (where, t, target, before, after), case)
+            return
+        via_judge_object(ctx, d, case, assigned, 'paragraph after the refused (%s) %s' % (t, where), 'none', sel)
+        return
+    finally:
+        K_ACTIVE[0] = False
+    # ---- no exception
+    from debian.deb822 import Deb822
+    if not isinstance(res, Deb822):
+        # e.g. p | ChainMap(...) is answered by ChainMap.__ror__ with a ChainMap: not a paragraph, nothing to judge -
+        # but the paragraph itself must not have taken the value in passing
+        ctx.count('via:outcome:result-not-a-paragraph')
+        ctx.count('via:result-type:' + type(res).__name__)
+        if d is not None and (list(d), d.dump()) != before:
+            ctx.count('via:operand-changed-though-result-not-a-paragraph')
+            via_judge_object(ctx, d, case, assigned, 'left operand after %s' % where, depth, sel)
+        return
+    ctx.count('via:outcome:accepted')
+    ctx.count('via:accepted:' + route)
+    ctx.count('via:accepted:src:' + src)
+    ctx.count('via:accepted:cls:' + clsname)
+    if dfx:
+        ctx.count('via:no-exception-with-defective-value')     # judged by what the paragraph then holds
+    via_judge_object(ctx, res, case, assigned, 'result of %s' % where, depth, sel)
+    if res is not d and d is not None and (list(d), d.dump()) != before:
+        ctx.count('via:left-operand-changed-too')
+        via_judge_object(ctx, d, case, assigned, 'left operand after %s' % where, 'none', sel)
+
+
+# ---------------------------------------------------------------------------
 
 def setup(ctx):
     from debian import deb822
@@ -2212,6 +2726,14 @@ def conclusive(tier, counters, monitor_evals, extra):
     if objs != c.get('mvs:outcome:dump-raised', 0) + c.get('mvs:outcome:dump-text', 0):
         return 'strings under multivalued names: %d objects dumped but %d outcomes' % (
             objs, c.get('mvs:outcome:dump-raised', 0) + c.get('mvs:outcome:dump-text', 0))
+    vcases = c.get('via:case', 0)
+    vdone = sum(c.get('via:outcome:' + k, 0) for k in ('skipped', 'build-raised', 'violation', 'operator-not-supported',
+                                                        'refused', 'result-not-a-paragraph', 'accepted'))
+    if vcases != vdone:
+        return 'mapping-object routes: %d cases but %d classified outcomes' % (vcases, vdone)
+    if monitor_evals.get('M.reread-via', 0) < 2 * c.get('via:value-stored', 0):
+        return 'mapping-object routes: %d values stored but only %d re-reads' % (
+            c.get('via:value-stored', 0), monitor_evals.get('M.reread-via', 0))
     if objs < c.get('mvs:outcome:assignment-accepted', 0):
         return 'strings under multivalued names: accepted assignments whose object was never dumped'
     text = c.get('mvs:outcome:dump-text', 0)
@@ -2256,6 +2778,20 @@ def cases(ctx):
     r = ctx.rng('strings-under-multivalued-names')
     for k in range(ctx.size(MVS_RANDOM_TOTAL['quick'], MVS_RANDOM_TOTAL['thorough'])):
         yield rand_mvs_case(r, k)
+    # mapping-protocol routes with mapping objects as the source: every (route, source type, class), tokens, seeded
+    for j, case in enumerate(via_enum_cases(ctx.quick)):
+        if ctx.mine(j):
+            yield case
+    j = 0
+    for k in range(0, VIA_ENUM_MAXLEN[ctx.tier] + 1):
+        plen = max(0, k - 2)                     # one block = one prefix x all 10^2 suffixes
+        for prefix in itertools.product(range(len(TOKENS)), repeat=plen):
+            if ctx.mine(j):
+                yield {'kind': 'via-penum', 'k': k, 'prefix': list(prefix)}
+            j += 1
+    r = ctx.rng('mapping-object-routes')
+    for k in range(ctx.size(VIA_RANDOM_TOTAL['quick'], VIA_RANDOM_TOTAL['thorough'])):
+        yield rand_via_case(r, k)
     maxlen = ENUM_MAXLEN[ctx.tier]
     idx = 0
     for k in range(0, maxlen + 1):
@@ -2326,7 +2862,7 @@ def reread_once(src, is_iter, api, strict, cls=None):
 
 
 def check_reread(ctx, d, v, small, what='dump', depth='none', sel=0, values=None, suffix='', sub=None, sink=None,
-                 followed=False, mv=False, text=None):
+                 followed=False, mv=False, text=None, fam='sub'):
     """M.reread: the accepted value's paragraph re-reads as ONE paragraph with the same names.
     values: all values of a PARSED paragraph (the blank-continuation guard of the default setting then looks at every
     one of them, and the re-reads are also counted as M.reread-parsed).
@@ -2337,7 +2873,9 @@ def check_reread(ctx, d, v, small, what='dump', depth='none', sel=0, values=None
     mv: v is a STRING the class accepted under one of its MULTIVALUED names and was willing to dump: always re-read as
     str through the class AND through plain Deb822 (+ bytes through the class for every 2nd value, + sub_plan());
     counted as M.reread-mvstr.
-    text: what the paragraph wrote, if the caller has it already."""
+    text: what the paragraph wrote, if the caller has it already.
+    fam: counter family of a re-read through a class ('sub': subclass layer; 'via': mapping-object routes - counted as
+    M.reread-via and via:* instead of M.reread-sub and sub:*)."""
     keys = list(d)
     if text is None:
         text = d.dump()
@@ -2359,8 +2897,8 @@ def check_reread(ctx, d, v, small, what='dump', depth='none', sel=0, values=None
         # a whitespace-only continuation line in the assigned value, with further fields behind it
         ws_followed = followed and model.blank_continuation(v)
         if ws_followed:
-            ctx.count('sub:ws-only-continuation-followed')
-            ctx.count('sub:ws-only-continuation-followed:' + sub)
+            ctx.count(fam + ':ws-only-continuation-followed')
+            ctx.count(fam + ':ws-only-continuation-followed:' + sub)
     else:
         ws_followed = False
         combos = [('str', 'iter', None), ('bytes', 'iter', None)]
@@ -2391,19 +2929,19 @@ def check_reread(ctx, d, v, small, what='dump', depth='none', sel=0, values=None
             if sub is not None:
                 cname = sub if cls is not None else 'Deb822'
                 mode = '%s/%s/%s' % (form, '%s.iter_paragraphs' % cname if api == 'iter' else '%s()' % cname, sname)
-                ctx.mon('M.reread-sub')
+                ctx.mon('M.reread-' + fam)
                 if mv:
                     ctx.mon('M.reread-mvstr')
                     ctx.count('mvs:reread:%s:%s:%s' % ('cls' if cls is not None else 'Deb822', api, sname))
                     if form not in ('str', 'bytes'):
                         ctx.count('mvs:reread-lf-form')
-                ctx.count('sub:reread-form:' + form)
-                ctx.count('sub:reread:%s:%s' % (cname, api))
+                ctx.count(fam + ':reread-form:' + form)
+                ctx.count('%s:reread:%s:%s' % (fam, cname, api))
                 if strict is not None:
-                    ctx.count('sub:reread-explicit-strict:%s:%s' % (cname, api))
+                    ctx.count('%s:reread-explicit-strict:%s:%s' % (fam, cname, api))
                     if ws_followed:
-                        ctx.count('sub:ws-reread:%s:%s' % (cname, api))
-                        ctx.count('sub:ws-reread-form:' + form)
+                        ctx.count('%s:ws-reread:%s:%s' % (fam, cname, api))
+                        ctx.count(fam + ':ws-reread-form:' + form)
             else:
                 if parsed:
                     ctx.mon('M.reread-parsed')
@@ -2573,6 +3111,12 @@ def run_case(ctx, case):
     if kind == 'mvs-penum':
         run_mvs_penum(ctx, case)
         return
+    if kind == 'via':
+        run_via(ctx, case, wl=case.get('wl', 'case'))
+        return
+    if kind == 'via-penum':
+        run_via_penum(ctx, case)
+        return
     if kind != 'enum':
         raise ValueError('unknown case kind %r' % kind)
     k = case['k']
@@ -2624,7 +3168,11 @@ LEVEL_TEXT = ('Runtime monitoring: every string of <= 5 (quick) / <= 7 (thorough
               'StringIO, BytesIO, lists of lines with and without terminators, a real text and a real binary file written '
               'by dump(fd) - through iter_paragraphs and the Deb822(...) constructor, with the same demand (paragraph count '
               'and field names only, never values); accepted values must be free of the three stated defects per '
-              'an independent model; rejections must be ValueError and leave list()/dump() unchanged.  Held-on-observed, '
+              'an independent model; rejections must be ValueError and leave list()/dump() unchanged.  The same discipline is '
+              'applied to values that arrive carried by a mapping OBJECT - update(other), update(other, **kw), cls(other), |= and | '
+              'with a Deb822Dict, an unvalidated Deb822, a Dsc/Changes/Release... holding the string under a name multivalued there, '
+              'OrderedDict, MappingProxyType, UserDict, ChainMap, a keys()/__getitem__-only object or an iterable of pairs as '
+              'the source, on Deb822 and its seven subclasses.  Held-on-observed, '
               'not a proof: reach is the enumerated space plus the sampled values.')
 LEVEL_NOTE = ('Trusted: CPython, vp.models.deb822value (line model of the three stated defects), the layout table. Domain as '
               'quantified (no exotic Unicode line boundaries/whitespace); field names are ordinary and disjoint from injectable '
